@@ -192,8 +192,82 @@ def variant_constructors(ctx):
     ctx.covered("Variant constructors, text renderings and coercion order", n, distinct_keys=list(want) + ["to_int", "to_float", "to_bool", "accessors"])
 
 
-def root_defaults(ctx):
-    """RootOptions::new defaults; every root of a comma list gets its own path and options"""
+def roots_by_evaluation(ctx):
+    """parse_roots evaluated (finite interpreter; the cursor is the lexem list and index; parse_root_options, RootOptions::new,
+    Root::new read from the source) on 9 FROM clauses: every root of a comma list gets its own path and exactly the options
+    written after it, the documented defaults otherwise; the cursor stops at the next clause.  None = cannot be evaluated."""
+    import interp
+    V = interp.V
+    fn = "parser::Parser::parse_roots"
+    hir = ctx.anchor_hir(fn)
+    ps = ctx.prog.fns[fn]["params"]
+    W, FROM, COMMA, WHERE = (lambda t: V("Lexem::RawString", [t])), V("Lexem::From"), V("Lexem::Comma"), V("Lexem::Where")
+    DEF = {"min_depth": 0, "max_depth": 0, "archives": False, "symlinks": False, "gitignore": None, "hgignore": None, "dockerignore": None,
+           "traversal": "Bfs", "regexp": False}
+    scen = [
+        ("no from", [WHERE, W("x")], [], 0),
+        ("from /a", [FROM, W("/a")], [("/a", {})], 2),
+        ("from /a, /b", [FROM, W("/a"), COMMA, W("/b")], [("/a", {}), ("/b", {})], 4),
+        ("from /a depth 2 archives, /b", [FROM, W("/a"), W("depth"), W("2"), W("archives"), COMMA, W("/b")], [("/a", {"max_depth": 2, "archives": True}), ("/b", {})], 7),
+        ("from /a, /b mindepth 1 symlinks dfs", [FROM, W("/a"), COMMA, W("/b"), W("mindepth"), W("1"), W("symlinks"), W("dfs")],
+         [("/a", {}), ("/b", {"min_depth": 1, "symlinks": True, "traversal": "Dfs"})], 8),
+        ("from /a maxdepth 1, /b depth 3, /c", [FROM, W("/a"), W("maxdepth"), W("1"), COMMA, W("/b"), W("depth"), W("3"), COMMA, W("/c")],
+         [("/a", {"max_depth": 1}), ("/b", {"max_depth": 3}), ("/c", {})], 10),
+        ("from /a nogit hg nodock regexp where", [FROM, W("/a"), W("nogit"), W("hg"), W("nodock"), W("regexp"), WHERE, W("x")],
+         [("/a", {"gitignore": False, "hgignore": True, "dockerignore": False, "regexp": True})], 6),
+        ("from /a where", [FROM, W("/a"), WHERE, W("x")], [("/a", {})], 2),
+        ("from /a nohg dock bfs, /b sym", [FROM, W("/a"), W("nohg"), W("dock"), W("bfs"), COMMA, W("/b"), W("sym")],
+         [("/a", {"hgignore": False, "dockerignore": True}), ("/b", {"symlinks": True})], 8),
+    ]
+
+    def plain(v):
+        if isinstance(v, V):
+            if v.name == "Option::Some":
+                return plain(v.args[0])
+            if v.name == "Option::None":
+                return None
+            return v.name.split("::")[-1]
+        return v
+    bad, n = [], 0
+    for label, lex, want, cursor in scen:
+        selfv = interp.LazySelf({"lexems": list(lex), "index": 0})
+        try:
+            got = interp.Interp(prog=ctx.prog, max_steps=60000).run(hir, {ps[0]["id"]: selfv})
+        except interp.Undecided as e:
+            ctx.covered("evaluation of parse_roots gave up (%s: %s); the structural rules apply" % (label, str(e)[:160]), 0)
+            return None
+        n += 1
+        roots = []
+        for r in got if isinstance(got, list) else []:
+            o = r.get("options") if isinstance(r, dict) else None
+            roots.append((plain(r.get("path")) if isinstance(r, dict) else repr(r), {k: plain(v) for k, v in o.items() if not k.startswith("__")} if isinstance(o, dict) else repr(o)))
+        exp = [(p_, dict(DEF, **ov)) for p_, ov in want]
+        at = min(selfv["index"], len(lex))        # past the end every further read is "no lexem": all positions >= len are one
+        ok = roots == exp and at == cursor
+        ctx.obligation(ok)
+        if not ok:
+            diff = []
+            for i, (p_, o) in enumerate(exp):
+                if i >= len(roots):
+                    diff.append("root %s is missing" % p_)
+                elif roots[i][0] != p_:
+                    diff.append("root %d is %s, expected %s" % (i + 1, roots[i][0], p_))
+                elif roots[i][1] != o:
+                    diff.append("%s has %s, expected %s" % (p_, {k: v for k, v in roots[i][1].items() if o.get(k) != v} if isinstance(roots[i][1], dict) else roots[i][1],
+                                                         {k: v for k, v in o.items() if not isinstance(roots[i][1], dict) or roots[i][1].get(k) != v}))
+            if len(roots) > len(exp):
+                diff.append("%d roots too many" % (len(roots) - len(exp)))
+            if at != cursor:
+                diff.append("the cursor is left at %d, expected %d" % (at, cursor))
+            bad.append("`%s`: %s" % (label, "; ".join(diff)))
+    ctx.covered("parse_roots evaluated on 9 FROM clauses (paths, options per root, defaults, cursor)", n, distinct_keys=[s_[0] for s_ in scen], exhaustive=True)
+    if bad:
+        ctx.violation("root-defaults/parse_roots", ctx.where(fn), "every root of a FROM clause has its own path and exactly the options written after it (documented defaults "
+                      "otherwise) and the cursor stops at the next clause: %s" % " | ".join(bad[:3]))
+    return True
+
+
+def _root_defaults_structural(ctx):
     h = ctx.anchor_hir("query::RootOptions::new")
     fs, node = struct_fields_of(h, "RootOptions")
     want = {"min_depth": "0", "max_depth": "0", "archives": "false", "symlinks": "false", "gitignore": "Option::None",
@@ -245,6 +319,15 @@ def root_defaults(ctx):
     ctx.obligation(bool(ro))
     if not ro:
         ctx.violation("root-defaults/options-binding", ctx.where("parser::Parser::parse_roots"), "the options parsed after a root path are not stored for that root")
+    return n, want
+
+
+def root_defaults(ctx):
+    """RootOptions::new defaults; every root of a comma list gets its own path and options"""
+    evaluated = roots_by_evaluation(ctx)
+    n, want = 0, {}
+    if not evaluated:
+        n, want = _root_defaults_structural(ctx)
     # a regexp root is expanded into literal roots by Root::clone_with_path: each of them carries every option of the root it
     # came from (evaluated: a source root with every option off its default)
     import interp
